@@ -689,6 +689,10 @@ def call(f, args=(), kws=()):
     if f in (G('list'), G('sorted'), G('set'), G('tuple')) and nokw and len(args) == 1 and args[0][0] == 'call' \
             and args[0][1][0] == 'attr' and args[0][1][2] == 'keys' and not args[0][2] and not args[0][3]:
         args = (args[0][1][1],)
+    # reversed(range(n)) counts down like range(n - 1, -1, -1)
+    if f == G('reversed') and nokw and len(args) == 1 and args[0][0] == 'call' and args[0][1] == G('range') \
+            and len(args[0][2]) == 1 and not args[0][3]:
+        return call(G('range'), (add(args[0][2][0], C(-1)), C(-1), C(-1)))
     # functools.reduce(f, iter(xs), init) folds xs  (a bare `reduce` is functools.reduce: Python 3 has no other)
     if f == G('reduce'):
         f = G('functools.reduce')
